@@ -81,7 +81,7 @@ def run(tier):
                 batches.append(("%s-k%d-%d" % (fam, nk, bi), keys, vals, cases))
         # under a comparator for which different byte strings are the same key (case-insensitive; every other table spells its keys in upper case)
         lk = [b"key-%c" % (97 + i) for i in range(nk)]
-        ncases = [dict(make_case(mergerun.tables_from_beh(b, nk), nk), cmp="nocase") for b in behs[:(len(behs) if thorough else 150)]]
+        ncases = [dict(make_case(mergerun.tables_from_beh(b, nk), nk), cmp="nocase") for b in behs[:(3000 if thorough else 150)]]
         batches.append(("nocase-k%d" % nk, lk, concrete.value_family(concrete.VALUE_FAMILIES[0], ["v1", "v2", "v3", "v4"], rng), ncases))
     # seeded bigger lists
     nbig = 30 if thorough else 9
